@@ -28,7 +28,7 @@ func (c19) Cases(tier string) int {
 }
 
 func (c19) Rule() string {
-	return "L2.new-options: 3 random lists of 1-8 options per case (planners, priority lists, queryer factories, middleware lists, others; all recording what they are handed) through gateway.New and one request, against the Lean model Nw.build (installed planner, what it was told, response and request middleware order); then 0-4 recording response middlewares (each adds a key to the response; optionally one of them fails) interleaved at registration with 0-3 recording request middlewares, handed to gateway.New in one WithMiddlewares option or cut into two or three, x fault patterns {none, a failing dependent call, a failing root call} x queries with joins (so that injected ids exist); services are wrapped in a queryer implementing QueryerWithMiddlewares that applies the middlewares it is handed to a request object before every call; checked: the response-middleware log is the registration-order prefix up to and including the first failing one, on success and on executor failure alike; every response middleware sees a response already free of injected ids (key sets equal the monolith's); the data returned carries every key the middlewares added; a middleware error is the returned error and no data is returned; every outbound call had every request middleware applied exactly once, in order; non-trivial = at least 1 response middleware and 2 service calls; distinct = distinct configuration"
+	return "L2.new-options: 3 random lists of 1-8 options per case (planners, priority lists, queryer factories, middleware lists, others; all recording what they are handed) through gateway.New and one request, against the Lean model Nw.build (installed planner, what it was told, response and request middleware order); then 0-4 recording response middlewares (each adds a key to the response; optionally one of them fails) interleaved at registration with 0-3 recording request middlewares, handed to gateway.New in one WithMiddlewares option or cut into two or three, x fault patterns {none, a failing dependent call, a failing root call} x queries with joins (so that injected ids exist), a fifth of the cases over a single service with a query through the gateway's own node field; services are wrapped in a queryer implementing QueryerWithMiddlewares that applies the middlewares it is handed to a request object before every call; checked: the response-middleware log is the registration-order prefix up to and including the first failing one, on success and on executor failure alike; every response middleware sees a response already free of injected ids (key sets equal the monolith's); the data returned carries every key the middlewares added; a middleware error is the returned error and no data is returned; every outbound call had every request middleware applied exactly once, in order; non-trivial = at least 1 response middleware and 2 service calls; distinct = distinct configuration"
 }
 
 // mwQueryer wraps a Service and implements graphql.QueryerWithMiddlewares.
@@ -77,6 +77,14 @@ func (c19) Run(c *Ctx, i int) CaseResult {
 		`{ topPhoto { likes owner { nick } } me { lastName favorite { likes } } allUsers { lastName } }`,
 		`{ me { friends { nick } lastName } user(id: "u2") { lastName photos { likes } } }`}[r.Intn(8)]
 	fault := []string{"none", "none", "dependent", "root"}[r.Intn(4)]
+	single := r.Intn(5) == 0
+	if single {
+		// one service behind the gateway, and a query through the gateway's own node field (a join all the same)
+		query = []string{`{ node(id: "u1") { ... on User { firstName lastName } } }`, `{ a: node(id: "u2") { ... on User { nick friends { lastName } } } me { firstName } }`}[r.Intn(2)]
+		if fault == "dependent" {
+			fault = "none"
+		}
+	}
 	res := CaseResult{ID: fmt.Sprintf("gen:%d", i), Key: fmt.Sprint(nResp, nReq, failAt, query, fault, i%7)}
 	// L2: how New takes its options (which planner, what it is told, the middleware lists) against Nw.build
 	for k := 0; k < 3; k++ {
@@ -122,6 +130,9 @@ func (c19) Run(c *Ctx, i int) CaseResult {
 	}
 	store := GenStore(rand.New(rand.NewSource(5)), false)
 	spec := FixedFed()
+	if single {
+		spec = SingleFed()
+	}
 	fq := map[string]*mwQueryer{}
 	var fed *Fed
 	factory := gateway.QueryerFactory(func(ctx *gateway.PlanningContext, url string) graphql.Queryer {
@@ -231,7 +242,7 @@ func (c19) Run(c *Ctx, i int) CaseResult {
 	}
 	res.Nontrivial = nResp > 0 && calls >= 2
 	res.Counters = map[string]int{"outbound_calls": calls, "response_middlewares": nResp, "request_middlewares": nReq}
-	res.Features = append(res.Features, "fault:"+fault, fmt.Sprintf("failing:%v", failAt >= 0))
+	res.Features = append(res.Features, "fault:"+fault, fmt.Sprintf("failing:%v", failAt >= 0), fmt.Sprintf("single-service:%v", single))
 	if i%37 == 0 {
 		res.Sample = map[string]interface{}{"config": cfg, "log": log.Resp, "per_call": log.PerCall, "error": ErrString(out.Err)}
 	}
